@@ -1,0 +1,25 @@
+//! Verification-only schedule points (compiled only with `--cfg similari_verif`).
+//!
+//! A global, normally empty callback is invoked at named sites so that an external
+//! harness can observe, delay or gate the calling thread. With no callback installed
+//! `point` only takes a read lock and returns.
+
+use std::sync::{Arc, RwLock};
+
+pub type Callback = Arc<dyn Fn(&'static str, u64, u64) + Send + Sync>;
+
+static CALLBACK: RwLock<Option<Callback>> = RwLock::new(None);
+
+/// Installs (or removes, with `None`) the global callback.
+pub fn set_callback(cb: Option<Callback>) {
+    *CALLBACK.write().unwrap() = cb;
+}
+
+/// Schedule point: calls the installed callback, if any, on the current thread.
+#[inline]
+pub fn point(site: &'static str, a: u64, b: u64) {
+    let cb = CALLBACK.read().unwrap().clone();
+    if let Some(cb) = cb {
+        cb(site, a, b);
+    }
+}
